@@ -70,7 +70,7 @@ Definition valid_packet : bytes :=
 
 Lemma valid_packet_ok :
   nopanic_suffixes false valid_packet /\
-  wp_run false false go_unquote valid_packet =
+  wp_run false true go_unquote valid_packet =
     Ok ([x61; x3d; x62], [ {| le_ts := 5; le_msg := [x6d; x31]; le_flds := [x01; x66; x01; x76; x01; x67; x01; x68] |};
                            {| le_ts := 7; le_msg := []; le_flds := [x01; x66; x01; x76] |} ]).
 Proof. split; [apply nps_by_compute; vm_compute; reflexivity|vm_compute; reflexivity]. Qed.
@@ -99,5 +99,22 @@ Section Reads.
     split; [apply as_kv_wf; exact F|].
     split; [apply check_wf; exact F|].
     intros fmt flds tl _ Hm. apply format_eval_safe; [exact F|apply escape_json_safe; exact Hm].
+  Qed.
+
+  (* with the EscapeJsonStr of the code the JSON element needs no condition on the message *)
+  Lemma stored_reads_total_all buf tags evs le :
+    wp_run g fx unquote buf = Ok (tags, evs) -> In le evs ->
+    (forall name, safe (value (le_flds le) name)) /\
+    safe (as_kv quote (le_flds le)) /\
+    check (le_flds le) = Ok tt /\
+    (forall fmt flds tl, format_parse fmt = Ok flds ->
+       safe (format_eval quote tsfmt tagval flds (le_ts le) (le_msg le) (le_flds le) tl [])).
+  Proof.
+    intros R I. pose proof (wp_run_wf g fx unquote Hshort buf tags evs R) as F.
+    rewrite Forall_forall in F. specialize (F le I).
+    split; [intros name; apply value_wf; exact F|].
+    split; [apply as_kv_wf; exact F|].
+    split; [apply check_wf; exact F|].
+    intros fmt flds tl _. apply format_eval_safe; [exact F|apply escape_json_total].
   Qed.
 End Reads.
